@@ -153,7 +153,7 @@ def _abstract_apps(terms, congruence=True):
     out = [go(t) for t in terms]
     if congruence:
         for name, apps in by_decl.items():
-            if len(apps) > 10:
+            if len(apps) > 32:
                 continue
             for i in range(len(apps)):
                 for j in range(i + 1, len(apps)):
@@ -450,6 +450,9 @@ def _external(smt2, terms, scale=1, only_cvc5=False, skip_cvc5=False, quick=Fals
         text = smt2
         if '(set-logic' not in text:
             text = '(set-logic ALL)\n' + text
+        # cvc5 does not accept a backslash in a |quoted| symbol (e.g. the function str.rstrip['\\n'])
+        import re as _re
+        text = _re.sub(r'\|[^|]*\|', lambda mo: mo.group(0).replace('\\', '/'), text)
         f.write(text)
         fn = f.name
     try:
